@@ -72,13 +72,16 @@ def rule_slicing(ctx, f):
     cfg = CFG(b)
     # index test dominates all offsets[..] uses
     idx_calls = [(bi, t) for bi, t in F.calls(b) if last_seg(F.callee_name(t)) == "index" and "Vec<usize>" in F.callee_name(t) + t.get("callee_full", "")]
-    ctx.floor("C11-G2", len(idx_calls), 2, "offsets[..] uses")
+    # the checked spelling `offsets.get(i)` needs no separate test
+    get_calls = [(bi, t) for bi, t in F.calls(b) if last_seg(F.callee_name(t)) == "get" and ("[usize]" in F.callee_name(t) + t.get("callee_full", "") or
+                                                                                              "Vec<usize>" in F.callee_name(t) + t.get("callee_full", ""))]
+    ctx.floor("C11-G2", len(idx_calls) + len(get_calls), 2, "offsets[..] / offsets.get(..) uses")
     tests = []
     for i, j, s in F.stmts(b):
         if s[0] == "assign" and s[2][0] == "binop" and s[2][1] in ("Ge", "Lt", "Gt", "Le"):
             tests.append(i)
     first_test = min(tests) if tests else None
-    ok = first_test is not None and all(cfg.dominates(first_test, bi) for bi, t in idx_calls)
+    ok = (first_test is not None and all(cfg.dominates(first_test, bi) for bi, t in idx_calls)) or not idx_calls
     ctx.check(ok, "C11-G2", "get_object_slice#index-test", "offsets[index] is not dominated by a comparison of index with the member count", b["span"], detail="index >= offsets.len() -> Err")
     # shapes of the returned range
     shapes = set()
@@ -118,6 +121,14 @@ def rule_slicing(ctx, f):
             e = ps.expr_of_rvalue(last[1][2], len(ps.events), 0)
             ok_l = canon(e) in ("Eq(index,Sub(len(offsets),1))", "Eq(Sub(len(offsets),1),index)")
             break
+    if not ok_l and get_calls:
+        # `match offsets.get(index + 1) { None => data.len(), Some(next) => first + next }`: the last member is the one without a successor
+        fl2 = Flow(b)
+        for bi, t in get_calls:
+            al = F.op_local(t["args"][1]) if len(t["args"]) > 1 else None
+            plus1 = al is not None and any(a[0] == "binop" and a[1].startswith("Add") and 1 in (F.const_int(a[3][2]), F.const_int(a[3][3])) for a in fl2.origins(al, passthrough=()))
+            if plus1 and "len(data)" in ends:
+                ok_l = True
     ctx.check(ok_l, "C11-G2", "get_object_slice#last-test", "the last member is not recognised by index == offsets.len() - 1", b["span"], detail="index == offsets.len() - 1")
 
 
@@ -146,7 +157,7 @@ def canon(e):
         return "%s(%s,%s)" % (e[1].replace("WithOverflow", ""), canon(e[2]), canon(e[3]))
     if k == "call":
         seg = last_seg(e[1])
-        if seg == "index" and len(e[2]) == 2:
+        if seg in ("index", "get") and len(e[2]) == 2:
             return "%s[%s]" % (canon(e[2][0]), canon(e[2][1]))
         if seg == "len":
             inner = canon(e[2][0])
